@@ -1,25 +1,8 @@
 /* ghost state of the call-level abstraction of the SHA-256 layer (contracts/alg__sha256.c.spec, VERIF_HASH_ABS) */
 #ifndef SHA256_ABS_GHOST_H_
 #define SHA256_ABS_GHOST_H_
-const void * ga_ctx0, * ga_ctx1;
-size_t ga_epoch0, ga_epoch1;
-uint64_t ga_len0, ga_len1;
-size_t ga_os, ga_oe;
-uint64_t ga_p;
-uint8_t ga_byte;
-size_t ga_nfin, ga_of, ga_fin_slot, ga_fin_epoch, ga_di;
-uint64_t ga_fin_len;
-uint8_t ga_dig_rec;
-size_t g256_zz;
-/* everything arbitrary (DFCC havocs globals anyway); only ranges that the contracts require */
-#define GA_HAVOC() do { \
-	IN(size_t, a_e0); IN(size_t, a_e1); IN(uint64_t, a_l0); IN(uint64_t, a_l1); IN(size_t, a_os); IN(size_t, a_oe); \
-	IN(uint64_t, a_p); IN(uint8_t, a_b); IN(size_t, a_nf); IN(size_t, a_of); IN(size_t, a_fs); IN(size_t, a_fe); \
-	IN(size_t, a_di); IN(uint64_t, a_fl); IN(uint8_t, a_dr); \
-	__CPROVER_assume(a_e0 < 1000 && a_e1 < 1000 && a_nf < 1000 && a_os < 2 && a_di < 32); \
-	ga_epoch0 = a_e0; ga_epoch1 = a_e1; ga_len0 = a_l0; ga_len1 = a_l1; ga_os = a_os; ga_oe = a_oe; ga_p = a_p; \
-	ga_byte = a_b; ga_nfin = a_nf; ga_of = a_of; ga_fin_slot = a_fs; ga_fin_epoch = a_fe; ga_di = a_di; \
-	ga_fin_len = a_fl; ga_dig_rec = a_dr; \
-	{ IN(size_t, a_zz); __CPROVER_assume(a_zz < sizeof(HMAC_SHA256_CTX)); g256_zz = a_zz; } \
-} while (0)
+#define GA_HMAC_CTX_T HMAC_SHA256_CTX
+#define GA_CTX_T SHA256_CTX
+#define GA_DLEN 32
+#include "hash_abs_ghost.h"
 #endif
